@@ -18,7 +18,11 @@ byte a newly allocated page is filled with (arbitrary in C).  A pointer is `Opti
 namespace CC
 open Spec (PPage PBlk fillBytes)
 
+/-- `sizeof(PageInfo)` (a pointer and a `size_t`) on the LP64 target; the harness checks it -/
+def pageInfoSize : Nat := 16
+
 structure DynamicPool where
+  triple      : Triple := .conf   -- `mem_alloc/mem_calloc/mem_free` copied from the configuration
   isFixed     : Bool
   isPacked    : Bool
   topPageSize : Nat
@@ -32,34 +36,37 @@ structure DynamicPool where
 namespace DynamicPool
 
 /-- `cc_dynamic_pool_new_conf` (and `cc_dynamic_pool_new` with the default configuration) -/
-def new (size : Nat) (fixed packed : Bool) (ab fresh : Nat) (m : Mem) : Stat × Option DynamicPool × Mem :=
-  let a1 := m.alloc                       -- mem_calloc(1, sizeof(CC_DynamicPool))
+def new (size : Nat) (fixed packed : Bool) (ab fresh : Nat) (t : Triple) (m : Mem) :
+    Stat × Option DynamicPool × Mem :=
+  -- `size + sizeof(PageInfo)` must not wrap around `size_t`
+  if size > sizeMod - 1 - pageInfoSize then (.errInvalidCapacity, none, m) else
+  let a1 := m.allocT t                    -- mem_calloc(1, sizeof(CC_DynamicPool))
   if !a1.1 then (.errAlloc, none, a1.2) else
-  let a2 := a1.2.alloc                    -- mem_alloc(size + sizeof(PageInfo))
-  if !a2.1 then (.errAlloc, none, a2.2.free) else
-  (.ok, some { isFixed := fixed, isPacked := packed, topPageSize := size, ab := ab,
+  let a2 := a1.2.allocT t                 -- mem_alloc(size + sizeof(PageInfo))
+  if !a2.1 then (.errAlloc, none, a2.2.freeT t) else
+  (.ok, some { triple := t, isFixed := fixed, isPacked := packed, topPageSize := size, ab := ab,
                pages := [{ size := size, bytes := List.replicate size fresh, blocks := [] }],
                free := 0, high := 0, undo := false }, a2.2)
 
 /-- the `do … while (p)` loop of `cc_dynamic_pool_destroy`: one `mem_free` per page -/
-def freePages : List PPage → Mem → Mem
+def freePages (t : Triple) : List PPage → Mem → Mem
   | [], m => m
-  | _ :: ps, m => freePages ps m.free
+  | _ :: ps, m => freePages t ps (m.freeT t)
 
 /-- `cc_dynamic_pool_destroy` -/
 def destroy (s : DynamicPool) (m : Mem) : Mem :=
   let m := m.check (s.pages != [])        -- `pool->page` is dereferenced
-  (freePages s.pages m).free
+  (freePages s.triple s.pages m).freeT s.triple
 
 /-- the loop of `cc_dynamic_pool_reset`: frees every page that has a `previous`, ends at the oldest -/
-def resetLoop : List PPage → Mem → Option PPage × Mem
+def resetLoop (t : Triple) : List PPage → Mem → Option PPage × Mem
   | [], m => (none, m.check false)
   | [p], m => (some p, m)
-  | _ :: q :: rest, m => resetLoop (q :: rest) m.free
+  | _ :: q :: rest, m => resetLoop t (q :: rest) (m.freeT t)
 
 /-- `cc_dynamic_pool_reset` -/
 def reset (s : DynamicPool) (m : Mem) : DynamicPool × Mem :=
-  let r := resetLoop s.pages m
+  let r := resetLoop s.triple s.pages m
   match r.1 with
   | some p => ({ s with pages := [{ p with blocks := [] }], topPageSize := p.size, free := 0, high := 0, undo := false }, r.2)
   | none => (s, r.2)
@@ -94,7 +101,9 @@ def malloc (grow : Nat → Nat) (fresh : Nat) (s : DynamicPool) (n : Nat) (m : M
   if n + padding > s.topPageSize - used then
     let nextMax := grow s.topPageSize
     if s.isFixed || n + padding > nextMax then (none, s, m) else
-    let a := m.alloc                      -- mem_alloc(next_max + sizeof(PageInfo))
+    -- `next_max + sizeof(PageInfo)` must not wrap around `size_t`
+    if nextMax > sizeMod - 1 - pageInfoSize then (none, s, m) else
+    let a := m.allocT s.triple            -- mem_alloc(next_max + sizeof(PageInfo))
     if !a.1 then (none, s, a.2) else
     let r := (s.expand nextMax fresh).bump n padding
     (r.1, r.2, a.2)
@@ -195,10 +204,10 @@ def step (grow : Nat → Nat) (fresh : Nat) (s : DynamicPool) (op : Op) (m : Mem
 
 open Spec.DPool (Op) in
 /-- the spec operation a model step corresponds to: the refusal flag is the allocator's next answer -/
-def annotate (op : Op) (m : Mem) : Op :=
+def annotate (s : DynamicPool) (op : Op) (m : Mem) : Op :=
   match op with
-  | .malloc n _ => .malloc n (!m.alloc.1)
-  | .calloc c k _ => .calloc c k (!m.alloc.1)
+  | .malloc n _ => .malloc n (!(m.allocT s.triple).1)
+  | .calloc c k _ => .calloc c k (!(m.allocT s.triple).1)
   | op => op
 
 open Spec.DPool (Op) in
@@ -210,7 +219,7 @@ def run (grow : Nat → Nat) (fresh : Nat) (s : DynamicPool) (ops : List Op) (m 
   | op :: ops =>
     let r := step grow fresh s op m
     let rs := run grow fresh r.2.1 ops r.2.2
-    (r.1 :: rs.1, annotate op m :: rs.2.1, rs.2.2.1, rs.2.2.2)
+    (r.1 :: rs.1, annotate s op m :: rs.2.1, rs.2.2.1, rs.2.2.2)
 
 end DynamicPool
 end CC
